@@ -2,6 +2,7 @@ package cli
 
 import (
 	"fmt"
+	"os"
 	"path/filepath"
 	"sort"
 	"strings"
@@ -35,8 +36,12 @@ type CleanCase struct {
 var cleanTreePool = []string{
 	"bin/app", "bin/x", "bin/keep.txt", "dist/a.js", "dist/sub/b.js", "a/b/c.out", "a/b/keep", "build/x.o", "build/y.o", "build/z.c",
 	"src/main.c", "src/t.tmp", "deep/er/u.tmp", "README.md", "notes.tmp", "emptyd/", "bin/app.sha256", "build.log", "dist.tar",
+	// names with glob meta characters other than '*': still literal paths for spok
+	"gen/report[1].txt", "gen/report1.txt", "gen/q?.txt", "gen/qa.txt",
+	// symbolic links ("name->target"): an output that is a link designates the link, not its target
+	"latest->bin", "current.txt->README.md",
 }
-var cleanLiteralPool = []string{"bin/app", "dist", "a/b/c.out", "missing/file", "", ".", "./", "..", "../..", "spokfile", "bin", "src/main.c", "emptyd", "bin/app.sha256", "build", "build.log", "dist.tar"}
+var cleanLiteralPool = []string{"bin/app", "dist", "a/b/c.out", "missing/file", "", ".", "./", "..", "../..", "spokfile", "bin", "src/main.c", "emptyd", "bin/app.sha256", "build", "build.log", "dist.tar", "gen/report[1].txt", "gen/q?.txt", "latest", "current.txt"}
 var cleanNamedPool = []NamedOut{
 	{"OUT_X", `"./bin/x"`, "bin/x"}, {"EMPTY", `""`, ""}, {"DOT", `"."`, "."}, {"JD", `join(".", "dist")`, "dist"},
 	{"UP", `join("..")`, ".."}, {"DEEP", `"a/b"`, "a/b"}, {"NOPE", `"nothing/here"`, "nothing/here"}, {"JB", `join("build", "x.o")`, "build/x.o"},
@@ -127,10 +132,15 @@ func execClean(s *ev.Shard, b *sandbox.Box, c CleanCase) *rp.Fail {
 	}
 	src := c.source()
 	files := map[string]string{"spokfile": src}
+	var links [][2]string
 	for _, p := range c.Tree {
-		if strings.HasSuffix(p, "/") {
+		switch {
+		case strings.Contains(p, "->"):
+			parts := strings.SplitN(p, "->", 2)
+			links = append(links, [2]string{parts[0], parts[1]})
+		case strings.HasSuffix(p, "/"):
 			files[p] = ""
-		} else {
+		default:
 			files[p] = "content of " + p
 		}
 	}
@@ -140,6 +150,13 @@ func execClean(s *ev.Shard, b *sandbox.Box, c CleanCase) *rp.Fail {
 	}
 	if err := writeProject(b, b.Proj, files); err != nil {
 		return &rp.Fail{Sig: "harness", Msg: err.Error()}
+	}
+	for _, l := range links {
+		lp := filepath.Join(b.Proj, filepath.FromSlash(l[0]))
+		if err := os.Symlink(l[1], lp); err != nil {
+			return &rp.Fail{Sig: "harness", Msg: err.Error()}
+		}
+		_ = os.Lchown(lp, 65534, 65534)
 	}
 	// bystanders above the project
 	if err := writeProject(b, b.Home, map[string]string{"sibling.txt": "sibling", "other/keep.txt": "keep"}); err != nil {
